@@ -17,7 +17,12 @@ import (
 // HostileVals are operand spellings of every value kind, including boundary numbers.
 var HostileVals = []string{"1", "0", "(0-1)", "1.5", "'s'", "null", "[1,2]", "[]", "{'k':1}", "{}", "toStr", "xs.push",
 	"9223372036854775807", "(0-9223372036854775807)", "2", "20", "100", "(0-9223372036854775807-1)", "4611686018427387905", "&cv", "ff", "''", "0.0", "[[1]]", "512", "513", "30001",
-	"8", "64", "63", "65", "(0-8)", "(0-64)", "7", "3", "4", "16", "dd", "xs", "s8", "s64", "len", "keys", "__proto__", "push", "k"}
+	"8", "64", "63", "65", "(0-8)", "(0-64)", "7", "3", "4", "16", "dd", "xs", "s8", "s64", "len", "keys", "__proto__", "push", "k",
+	"cyc", "cyd", "dag", "dag", "[cyc]", "{'c': cyd}"}
+
+// HostilePrelude2 adds values with reference cycles and with exponentially shared sub-structure
+// (30 levels of [dag, dag]: 31 arrays, 2^30 paths); cyc/cyd/dag are null without it.
+var HostilePrelude2 = "cyc = [1]; cyc[0] = cyc; cyd = {}; cyd.me = cyd; dag = [1]; di = 0; while di < 30 { dag = [dag, dag]; di = di + 1 }; "
 
 // OperandTemplates: every operator/dice slot/method with %s operand holes.
 var OperandTemplates = []string{
@@ -39,14 +44,37 @@ var OperandTemplates = []string{
 
 var HostilePrelude = "xs=[1,2,3]; ys=[]; dd={'k':1}; ff = 2.5; &cv = d6 + 1; s8 = '01234567'; s64 = '0123456789012345678901234567890123456789012345678901234567890123'; "
 
+// StructTemplates: every operation that walks or copies a container, applied (%c) to values with
+// reference cycles or exponentially shared sub-structure.
+var StructTemplates = []string{
+	"%c * 2", "2 * %c", "%c * 3", "%c + %c", "%c + [1]", "[1] + %c", "%c[0:1]", "%c[:]", "%c[0]", "%c[0][0][0][0]", "toStr(%c)", "repr(%c)", "`{%c}`", "`{%c}{%c}`",
+	"%c == %c", "%c != %c", "%c < %c", "%c.len()", "%c.sum()", "%c.kh()", "%c.kl(1)", "[%c]kh", "%c.keys()", "%c.values()", "%c.items()", "store('q', %c); q", "func g(v){ v }; g(%c)",
+	"func g(v){ return [v, v] }; g(%c)", "&z = %c; z", "xs.push(%c); xs", "%c[0:1] = %c", "%c[0:0] = %c", "%c.shuffle()", "%c.rand()", "%c.randSize(1)", "dir(%c)", "typeId(%c)", "toBool(%c)",
+	"toInt(%c)", "%c ? 1 : 2", "%c || 1", "%c && 1", "-%c", "abs(%c)", "%c.pop()", "%c.shift()", "%c.push(%c)", "%c.me.me.me", "%c ?? 1", "[%c, %c]", "{'k': %c}", "%c.x = %c", "y = %c; y[0] = 1; %c",
+	"%c d6", "2d(%c)", "b(%c)", "xs[%c]", "dd[%c]", "dd[%c] = 1", "[%c..3]", "^sta:%c", "^sta+%c", "if %c { 1 }", "while %c { break }", "%c(1)", "%c.compute()", "ceil(%c)", "load(%c)", "1 + %c reason",
+}
+
 // Matrix returns the idx-th operand-matrix program.
 func Matrix(r *fw.Rand) string {
+	if r.P(1, 6) {
+		src := r.Pick(StructTemplates)
+		for strings.Contains(src, "%c") {
+			src = strings.Replace(src, "%c", r.Pick([]string{"cyc", "cyd", "dag", "dag", "[dag]", "[cyc, cyc]", "{'k': dag}", "cyd.me", "dag[0]"}), 1)
+		}
+		if strings.HasPrefix(src, "^st") {
+			return src
+		}
+		return HostilePrelude + HostilePrelude2 + src
+	}
 	t := r.Pick(OperandTemplates)
 	src := t
 	for strings.Contains(src, "%s") {
 		src = strings.Replace(src, "%s", r.Pick(HostileVals), 1)
 	}
 	if r.P(7, 8) && !strings.HasPrefix(src, "^st") {
+		if r.P(1, 3) {
+			src = HostilePrelude2 + src
+		}
 		src = HostilePrelude + src
 	}
 	return src
@@ -56,6 +84,33 @@ func Matrix(r *fw.Rand) string {
 func Ladder(r *fw.Rand) string {
 	depths := []int{1, 2, 5, 18, 19, 20, 21, 22, 25, 40, 64}
 	n := fw.PickT(r, depths)
+	if r.P(1, 4) {
+		// an operator nested in its own operand positions (every operator that keeps per-term state),
+		// and per-term state abandoned by leaving a loop iteration from inside an operand
+		n = fw.PickT(r, []int{2, 8, 15, 16, 17, 18, 33, 65, 100})
+		open := r.Pick([]string{"1d(", "2d6kh(", "2d6kl(", "3d6dh(", "2d6min(", "2d6max(", "(1d", "1a(", "2a11m(", "2a11k(", "1c(", "2c11m(", "b(", "p(", "1d(1+", "d(", "2d(1)d(", "-(", "!(", "f(", "x[", "[1,", "{'k':", "1 ? (", "0 || (", "toStr(", "abs(-", "`{", "&c=(", "1 ?? (", "2**("})
+		core := r.Pick([]string{"1d6", "2", "1d1", "x", "f"})
+		close := strings.Repeat(")", strings.Count(open, "(")-strings.Count(open, ")"))
+		switch {
+		case strings.HasPrefix(open, "(1d"):
+			return strings.Repeat("(", n) + "1d6" + strings.Repeat(")d6", n)
+		case open == "x[":
+			return "x=[0]; " + strings.Repeat("x[", n) + "0" + strings.Repeat("]", n)
+		case open == "[1,":
+			return strings.Repeat("[1,", n) + core + strings.Repeat("]", n)
+		case open == "{'k':":
+			return strings.Repeat("{'k':", n) + core + strings.Repeat("}", n)
+		case open == "`{":
+			return strings.Repeat("`{", n) + core + strings.Repeat("}`", n)
+		}
+		if r.P(1, 5) {
+			return fmt.Sprintf("i=0; while i<%d { i=i+1; %s`{%% continue %%}`%s }; i", n+3, open, close)
+		}
+		if r.P(1, 6) {
+			return fmt.Sprintf("func g(n) { if n < 1 { return 1 }; %sg(n-1)%s }; g(%d)", open, close, n)
+		}
+		return strings.Repeat(open, n) + core + strings.Repeat(close, n)
+	}
 	switch r.Intn(14) {
 	case 0:
 		return strings.Repeat("if 1 {", n) + "1" + strings.Repeat("}", n)
@@ -92,6 +147,18 @@ func Ladder(r *fw.Rand) string {
 
 // Doubling returns growth constructs that must be stopped by the budget.
 func Doubling(r *fw.Rand) string {
+	if r.P(1, 6) {
+		// growth through slice assignment (the array is its own source, or two arrays feed each other)
+		return r.Pick([]string{
+			"a=[1,2]; i=0; while i < 60 { a[0:0] = a; i = i + 1 }; 1",
+			"a=[1,2]; i=0; while i < 60 { a[1:1] = a[:]; i = i + 1 }; a.len()",
+			"a=[1,2]; while 1 { a[0:0] = a }",
+			"a=[1,2]; b=[3]; i=0; while i < 80 { a[0:0] = b; b[0:0] = a; i = i + 1 }; 1",
+			"a=[1,2]; i=0; while i < 60 { a[:] = a + a; i = i + 1 }; 1",
+			"a=[[1,2]]; i=0; while i < 60 { a[0][0:0] = a[0]; i = i + 1 }; 1",
+			"func g(v) { v[0:0] = v; v }; a=[1,2]; i=0; while i < 60 { a = g(a); i = i + 1 }; 1",
+		})
+	}
 	switch r.Intn(12) {
 	case 0:
 		return "x='ab'; i=0; while i < 60 { x = x + x; i = i + 1 }; 1"
